@@ -50,7 +50,12 @@ Theorem ban_keyword_not_allowed : forall banned s l kw k s1,
 Proof. exact ban_keyword_rejected. Qed.
 Print Assumptions ban_keyword_not_allowed.
 
-(* processInclude: the ban is tested before anything else is done. *)
+(* processInclude: the ban is tested before anything else is done there.  (Since /repo c51680e the
+   directive read before the INCLUDE is placed first -- drainCurrentScanner calls
+   processCurrentDirective before processInclude, model: process_lexeme -- so s is the state after
+   that; at the lexeme level BanProofs.ban_include_lexeme_rejected, at the scan level
+   ban_diagnostic_at_first below; a misplaced directive is diagnosed first:
+   BanProofs.ban_after_misplaced_directive.) *)
 Theorem ban_include_not_allowed : forall jsc_len enum_len files banned s l,
   kind_in KInclude banned = true ->
   process_include jsc_len enum_len files banned s l = CErr (ban_error s l KInclude).
@@ -58,10 +63,13 @@ Proof. exact ban_include_rejected. Qed.
 Print Assumptions ban_include_not_allowed.
 
 (* The scan ends at the first keyword of a banned kind with 'not allowed' located at it; nothing
-   after it is processed (whatever fuel is left). *)
+   after it is processed (whatever fuel is left) -- provided the directive read just before can be
+   placed (otherwise ITS diagnostic, at its keyword, ends the scan:
+   BanProofs.ban_after_misplaced_directive).  Before /repo c51680e a banned INCLUDE was exempt from
+   that proviso (the disjunct `k = KInclude`): the pending directive was not placed before an INCLUDE. *)
 Theorem ban_diagnostic_at_first : forall jsc_len enum_len files banned fuel s x1 l kw k,
   next_keyword jsc_len enum_len s x1 l kw k -> kind_in k banned = true ->
-  k = KInclude \/ (exists s1, flush_cur (upd_sc s x1) = COk s1) ->
+  (exists s1, flush_cur (upd_sc s x1) = COk s1) ->
   cs_stack s = [] \/ k <> KJsight ->
   scan_project jsc_len enum_len files banned (S fuel) s = CErr (ban_error s l k).
 Proof. exact ban_diagnostic_at_first_lemma. Qed.
